@@ -302,6 +302,7 @@ def run(ctx, idx):
             if len(textual) == len(parts) and len(idxs) >= 2:
                 ctx.violate("C10.f", "%s::Parser.%s::concatenated-tokens" % (rel, fname), rel, v.lineno,
                             "`%s` glues the values of separate tokens together: blanks the lexer skipped between them are lost (`This is a string.` -> `Thisisastring.`)" % K.src(v))
+    actions_keep_values(ctx, idx, L, "C10.f")
     rs = L.rule("STRING")
     if rs is None or not isinstance(rs.node, ast.FunctionDef):
         raise AnalysisError("STRING rule vanished")
@@ -310,7 +311,14 @@ def run(ctx, idx):
     con = "%s::t_STRING::quote-removal" % rel
     strip = [n for n in ast.walk(rs.node) if isinstance(n, ast.Call) and isinstance(n.func, ast.Attribute) and n.func.attr in ("strip", "lstrip", "rstrip", "replace")]
     sl = [n for n in ast.walk(rs.node) if isinstance(n, ast.Subscript) and isinstance(n.slice, ast.Slice) and K.src(n.slice) == "1:-1"]
-    if strip:
+    pyeval = [n for n in ast.walk(rs.node) if isinstance(n, ast.Call) and (idx.qualname(L.mod, n.func) or K.src(n.func)) in ("ast.literal_eval", "builtins.eval", "eval") and n.args and K.src(n.args[0]) == "%s.value" % t]
+    if pyeval:
+        # the token text is handed to Python's own literal reader: every STRING token must then be a Python string literal
+        PY_LITERAL = r'"([^"\\\n]|\\[\s\S])*"|\'([^\'\\\n]|\\[\s\S])*\''
+        wit = RL.not_included(dfas[rs.name], RL.dfa(PY_LITERAL))
+        ctx.ob("C10.f", con, rel, pyeval[0].lineno, wit is None, "every STRING token is a Python string literal" if wit is None else
+               "the token text is decoded with %s, but the STRING pattern accepts %r, which is not a Python string literal (a quoted string spanning lines): a well-formed value is rejected, although the same text written with an escape still parses" % (K.src(pyeval[0].func), wit))
+    elif strip:
         ctx.violate("C10.f", con, rel, strip[0].lineno, "`%s` removes every leading/trailing quote character, not one delimiter each side: `\"'x'\"` yields `x`" % K.src(strip[0]))
     elif sl:
         ctx.hold("C10.f", con, rel, sl[0].lineno, "delimiters removed positionally (v[1:-1])")
@@ -359,6 +367,36 @@ def run(ctx, idx):
         other = [n for n in cfg.find("raise") if n not in rz]
         ok = not ends_normally and rz and not other
         ctx.ob("C10.g", con, rel, fn.lineno, ok, "raises SyntaxError on every path" if ok else "%s can return normally or raise something else: malformed text is skipped or misreported" % nm)
+
+
+def actions_keep_values(ctx, idx, L, rule):
+    rel = L.mod.rel
+    # grammar actions hand token values on as they are: no trimming / case folding / substitution of a value taken from p[i]
+    # (a quoted string keeps its blanks; only the lexer decides what belongs to a token)
+    TRANSFORMS = ("strip", "lstrip", "rstrip", "lower", "upper", "title", "capitalize", "casefold", "replace", "expandtabs", "translate", "swapcase", "zfill")
+    seen_fn = set()
+    for prod in L.productions:
+        f = prod.func
+        if f.name in seen_fn:
+            continue
+        seen_fn.add(f.name)
+        parg = f.args.args[-1].arg
+        derived = set()
+        changed = True
+        while changed:
+            changed = False
+            for n in ast.walk(f):
+                if isinstance(n, ast.Assign) and len(n.targets) == 1 and isinstance(n.targets[0], ast.Name) and n.targets[0].id not in derived:
+                    if any(isinstance(x, ast.Subscript) and isinstance(x.value, ast.Name) and x.value.id == parg for x in ast.walk(n.value)) or (K.names_in(n.value) & derived):
+                        derived.add(n.targets[0].id)
+                        changed = True
+        for n in ast.walk(f):
+            if isinstance(n, ast.Call) and isinstance(n.func, ast.Attribute) and n.func.attr in TRANSFORMS:
+                recv = n.func.value
+                from_p = any(isinstance(x, ast.Subscript) and isinstance(x.value, ast.Name) and x.value.id == parg for x in ast.walk(recv)) or bool(K.names_in(recv) & derived)
+                if from_p:
+                    ctx.violate(rule, "%s::Parser.%s::value-rewritten" % (rel, f.name), rel, n.lineno,
+                                "the action rewrites a token value (`%s`): a quoted string loses characters that were inside its quotes, so the quoted and the unquoted spelling of a value no longer differ only in what needs quoting, and a serialised string does not read back" % K.src(n)[:60])
 
 
 def retyping(idx, L):
